@@ -41,7 +41,7 @@ fn p(nr_cols: usize, max_bit_len: usize) -> Params {
 }
 
 fn case(kind: &str, params: Params, ops: Vec<Op>, inputs: Vec<F>, first_op: usize) -> Case {
-    Case { kind: kind.to_string(), params, ops, inputs, first_op, deterministic: true }
+    Case { kind: kind.to_string(), params, ops, inputs, first_op, deterministic: true, variants: vec![] }
 }
 
 fn ins(n: usize) -> Vec<Op> {
@@ -470,6 +470,25 @@ pub fn decomp_cases(ctx: &Ctx, out: &mut Vec<Case>) {
             o.push(op("frombytes", vec![Vs((0..nbytes).collect())]));
             let inputs: Vec<F> = (0..nbytes).map(|_| F::from(rng.gen_range(0..256u64))).collect();
             out.push(case("frombytes", d.clone(), o, inputs, nbytes));
+            // big-endian variants (decomposition.rs defaults)
+            let nb = rng.gen_range(0..=40usize);
+            let xs = big_fe(&pick_below(&mut rng, &pow2(nb)));
+            let o = vec![op("in", vec![]), op("bebits", vec![V(0), OptN(Some(nb as u64)), N(rng.gen_range(0..2))])];
+            out.push(case("bebits", d.clone(), o, vec![xs], 1));
+            let nby = rng.gen_range(0..=12usize);
+            let xs = big_fe(&pick_below(&mut rng, &pow2(8 * nby)));
+            let o = vec![op("in", vec![]), op("bebytes", vec![V(0), OptN(Some(nby as u64))])];
+            out.push(case("bebytes", d.clone(), o, vec![xs], 1));
+            let nbits = rng.gen_range(0..=20usize);
+            let mut o: Vec<Op> = (0..nbits).map(|_| op("inb", vec![])).collect();
+            o.push(op("frombebits", vec![Vs((0..nbits).collect())]));
+            let inputs: Vec<F> = (0..nbits).map(|_| F::from(rng.gen_range(0..2u64))).collect();
+            out.push(case("frombebits", d.clone(), o, inputs, nbits));
+            let nbytes = rng.gen_range(0..=9usize);
+            let mut o: Vec<Op> = (0..nbytes).map(|_| op("iny", vec![])).collect();
+            o.push(op("frombebytes", vec![Vs((0..nbytes).collect())]));
+            let inputs: Vec<F> = (0..nbytes).map(|_| F::from(rng.gen_range(0..256u64))).collect();
+            out.push(case("frombebytes", d.clone(), o, inputs, nbytes));
             // conversions
             let o = vec![op("in", vec![]), op("n2y", vec![V(0)]), op("y2n", vec![V(1)]), op("n2y", vec![V(2)])];
             out.push(case("n2y", d.clone(), o, vec![F::from(rng.gen_range(0..256u64))], 1));
@@ -624,8 +643,357 @@ pub fn vector_cases(ctx: &Ctx, out: &mut Vec<Case>) {
     }
 }
 
+/// A writer of the bound cache of `NativeGadget` (`update_bound` call sites): the program
+/// prefix, the variable holding the cell, the strict bound the model believes is recorded for it
+/// (`cached = false`: the value is range-checked to `bound` but nothing is recorded), and the
+/// inputs that give the cell a chosen value.
+struct Writer {
+    name: String,
+    ops: Vec<Op>,
+    var: usize,
+    nvars: usize,
+    bound: BigUint,
+    inputs: Box<dyn Fn(&BigUint) -> Vec<F>>,
+}
+
+fn writers(rng: &mut impl Rng, quick: bool) -> Vec<Writer> {
+    let one = |v: &BigUint| vec![big_fe(v)];
+    let mut w: Vec<Writer> = vec![];
+    // byte -> native, bit -> native (native_gadget.rs: ConversionInstructions<AssignedByte/AssignedBit, AssignedNative>)
+    w.push(Writer {
+        name: "y2n".into(),
+        ops: vec![op("iny", vec![]), op("y2n", vec![V(0)])],
+        var: 1,
+        nvars: 2,
+        bound: BigUint::from(256u32),
+        inputs: Box::new(one),
+    });
+    w.push(Writer {
+        name: "b2n".into(),
+        ops: vec![op("inb", vec![]), op("b2n", vec![V(0)])],
+        var: 1,
+        nvars: 2,
+        bound: BigUint::from(2u32),
+        inputs: Box::new(one),
+    });
+    // native -> byte / bit (bound recorded on the input cell)
+    w.push(Writer {
+        name: "n2y".into(),
+        ops: vec![op("in", vec![]), op("n2y", vec![V(0)])],
+        var: 0,
+        nvars: 2,
+        bound: BigUint::from(256u32),
+        inputs: Box::new(one),
+    });
+    // ... and propagated to the fresh byte cell by the gadget's assert_equal
+    w.push(Writer {
+        name: "n2y-y2n".into(),
+        ops: vec![op("in", vec![]), op("n2y", vec![V(0)]), op("y2n", vec![V(1)])],
+        var: 2,
+        nvars: 3,
+        bound: BigUint::from(256u32),
+        inputs: Box::new(one),
+    });
+    w.push(Writer {
+        name: "n2b".into(),
+        ops: vec![op("in", vec![]), op("n2b", vec![V(0)])],
+        var: 0,
+        nvars: 2,
+        bound: BigUint::from(2u32),
+        inputs: Box::new(one),
+    });
+    // assert_lower_than_fixed / assign_lower_than_fixed / bounded_of_element / bnot
+    let mut alf_bounds: Vec<BigUint> = vec![
+        BigUint::from(1u8),
+        BigUint::from(2u8),
+        BigUint::from(3u8),
+        BigUint::from(255u8),
+        BigUint::from(256u32),
+        BigUint::from(257u32),
+        pow2(64) - 1u8,
+        pow2(64),
+        pow2(64) + 1u8,
+    ];
+    alf_bounds.push(rand_below(rng, &pow2(40)) + 2u8);
+    if quick {
+        alf_bounds = vec![
+            BigUint::from(3u8),
+            BigUint::from(255u8),
+            BigUint::from(256u32),
+            pow2(64) + 1u8,
+            rand_below(rng, &pow2(40)) + 2u8,
+        ];
+    }
+    for b in &alf_bounds {
+        w.push(Writer {
+            name: "alf".into(),
+            ops: vec![op("in", vec![]), op("alf", vec![V(0), Big(b.clone())])],
+            var: 0,
+            nvars: 1,
+            bound: b.clone(),
+            inputs: Box::new(one),
+        });
+    }
+    for b in [BigUint::from(200u8), BigUint::from(256u32), pow2(16) + 1u8] {
+        w.push(Writer {
+            name: "inlf".into(),
+            ops: vec![op("inlf", vec![Big(b.clone())])],
+            var: 0,
+            nvars: 1,
+            bound: b.clone(),
+            inputs: Box::new(one),
+        });
+    }
+    for n in [1u64, 8, 9] {
+        w.push(Writer {
+            name: "bnd".into(),
+            ops: vec![op("in", vec![]), op("bnd", vec![V(0), N(n)])],
+            var: 0,
+            nvars: 2,
+            bound: pow2(n as usize),
+            inputs: Box::new(one),
+        });
+    }
+    w.push(Writer {
+        name: "bnot".into(),
+        ops: vec![op("in", vec![]), op("bnot", vec![V(0), N(8)])],
+        var: 0,
+        nvars: 2,
+        bound: pow2(8),
+        inputs: Box::new(one),
+    });
+    // propagation through the gadget's assert_equal
+    for b in [BigUint::from(255u8), BigUint::from(300u32)] {
+        w.push(Writer {
+            name: "aeq".into(),
+            ops: vec![
+                op("in", vec![]),
+                op("alf", vec![V(0), Big(b.clone())]),
+                op("in", vec![]),
+                op("aeq", vec![V(0), V(1)]),
+            ],
+            var: 1,
+            nvars: 2,
+            bound: b.clone(),
+            inputs: Box::new(|v: &BigUint| vec![big_fe(v), big_fe(v)]),
+        });
+    }
+    // the result bit of a comparison, seen as a native value (convert bit -> native inside
+    // lower_than_fixed / lower_than)
+    w.push(Writer {
+        name: "ltf-bit".into(),
+        ops: vec![
+            op("in", vec![]),
+            op("bnd", vec![V(0), N(8)]),
+            op("ltf", vec![V(1), C(F::from(100u64))]),
+            op("b2n", vec![V(2)]),
+        ],
+        var: 3,
+        nvars: 4,
+        bound: BigUint::from(2u8),
+        inputs: Box::new(|v: &BigUint| vec![if *v == BigUint::from(1u8) { F::from(0u64) } else { F::from(100u64) }]),
+    });
+    // remainder / quotient of div_rem (assign_lower_than_fixed with a non-power-of-two bound)
+    w.push(Writer {
+        name: "divrem-r".into(),
+        ops: vec![op("in", vec![]), op("divrem", vec![V(0), Big(BigUint::from(7u8)), OptBig(Some(BigUint::from(1000u32)))])],
+        var: 2,
+        nvars: 3,
+        bound: BigUint::from(7u8),
+        inputs: Box::new(one),
+    });
+    w
+}
+
+/// Bounds to try against a cell whose recorded strict bound is `b`: b-1, b, b+1 and the powers of
+/// two around it (and their neighbours).
+fn around(b: &BigUint) -> Vec<BigUint> {
+    let mut c: Vec<BigUint> = vec![b + 1u8, b.clone()];
+    if *b > BigUint::from(1u8) {
+        c.push(b - 1u8);
+    }
+    let k = (b.bits() as usize).saturating_sub(1);
+    for kk in [k, k + 1] {
+        c.push(pow2(kk));
+        c.push(pow2(kk) + 1u8);
+        if kk > 0 {
+            c.push(pow2(kk) - 1u8);
+        }
+    }
+    c.retain(|x| *x >= BigUint::from(1u8));
+    c.sort();
+    c.dedup();
+    c
+}
+
+/// Every reader of the bound cache right after every writer, with the bound argument around the
+/// recorded bound; honest witnesses on both sides of every asserted bound are checked by the range
+/// oracle (`run::range_oracle`) through the real MockProver.
+pub fn bound_cache_cases(ctx: &Ctx, out: &mut Vec<Case>) {
+    let mut rng = ctx.rng("boundcache");
+    let quick = !ctx.thorough();
+    let cfgs: Vec<Params> = if !ctx.thorough() { vec![p(4, 8), p(2, 9)] } else { vec![p(4, 8), p(1, 8), p(2, 9), p(3, 10)] };
+    for (ci, d) in cfgs.into_iter().enumerate() {
+        for w in writers(&mut rng, quick) {
+            // configurations after the first: only the byte / bit conversions and one writer of
+            // each other kind
+            if ci > 0 && !["y2n", "b2n", "n2y", "bnd", "inlf"].contains(&w.name.as_str()) {
+                continue;
+            }
+            let b = w.bound.clone();
+            let x = w.var;
+            let nv = w.nvars;
+            let mut cs = around(&b);
+            if !ctx.thorough() && cs.len() > 5 {
+                // always b-1, b, b+1; two of the others
+                let keep: Vec<BigUint> = vec![&b + 1u8, b.clone(), if b > BigUint::from(1u8) { &b - 1u8 } else { b.clone() }];
+                let mut rest: Vec<BigUint> = cs.iter().filter(|c| !keep.contains(c)).cloned().collect();
+                while rest.len() > 2 {
+                    let i = rng.gen_range(0..rest.len());
+                    rest.remove(i);
+                }
+                cs = keep;
+                cs.extend(rest);
+                cs.sort();
+                cs.dedup();
+            }
+            let values = |c: &BigUint| -> Vec<BigUint> {
+                // admissible for the writer (below b), on both sides of c
+                let mut v: Vec<BigUint> = vec![BigUint::from(0u8), &b - 1u8];
+                if *c >= BigUint::from(1u8) {
+                    v.push(c - 1u8);
+                }
+                v.push(c.clone());
+                v.retain(|z| *z < b);
+                v.sort();
+                v.dedup();
+                v
+            };
+            let mk = |kind: &str, tail: Vec<Op>, c: &BigUint, out: &mut Vec<Case>| {
+                let mut ops = w.ops.clone();
+                // every `in` of the tail receives the value of the cell under test
+                let extra = tail.iter().filter(|o| o.name == "in").count();
+                let with_extra = |v: &BigUint| -> Vec<F> {
+                    let mut i = (w.inputs)(v);
+                    i.extend((0..extra).map(|_| big_fe(v)));
+                    i
+                };
+                ops.extend(tail);
+                let vs = values(c);
+                // main input: the largest admissible value below c (in range for both), else 0
+                let main = vs.iter().filter(|z| **z < *c).max().cloned().unwrap_or_else(|| BigUint::from(0u8));
+                let mut cs = case(&format!("bc:{}:{kind}", w.name), d.clone(), ops, with_extra(&main), w.ops.len());
+                cs.variants = vs.iter().filter(|z| **z != main).map(|z| with_extra(z)).collect();
+                out.push(cs);
+            };
+            // the writer alone, with honest witnesses on both sides of ITS bound (plain negative
+            // range tests: a value equal to or above the bound must be rejected)
+            {
+                let vs: Vec<BigUint> = vec![&b - 1u8, b.clone(), &b + 1u8, BigUint::from(0u8)];
+                // (inputs are prover-chosen: nothing here is "under test" for the fault injector)
+                let mut cs0 = nd(case(&format!("bc:{}:self", w.name), d.clone(), w.ops.clone(), (w.inputs)(&vs[0]), w.ops.len()));
+                cs0.variants = vs[1..].iter().filter(|z| **z != vs[0]).map(|z| (w.inputs)(z)).collect();
+                out.push(cs0);
+            }
+            for c in &cs {
+                // assert_lower_than_fixed
+                mk("alf", vec![op("alf", vec![V(x), Big(c.clone())])], c, out);
+                // propagation, then the reader on the other cell
+                mk(
+                    "aeq-alf",
+                    vec![op("in", vec![]), op("aeq", vec![V(x), V(nv)]), op("alf", vec![V(nv), Big(c.clone())])],
+                    c,
+                    out,
+                );
+                // fixed comparisons on the bounded view of the cell (the bound in bits is large
+                // enough for every admissible value; lower_than_fixed needs c < 2^253)
+                let nb = (b.bits().max(c.bits()) + 1).min(253);
+                if c.bits() < 250 {
+                    let cf = big_fe(c);
+                    let cm1 = big_fe(&(c - 1u8));
+                    for (name, k) in [("ltf", cf), ("geqf", cf), ("leqf", cm1), ("gtf", cm1)] {
+                        mk(
+                            name,
+                            vec![op("bnd", vec![V(x), N(nb)]), op(name, vec![V(nv), C(k)])],
+                            c,
+                            out,
+                        );
+                    }
+                }
+            }
+            // bounded_of_element / bnot with the powers of two around b
+            let k = (b.bits() as usize).saturating_sub(1);
+            for n in [k.saturating_sub(1), k, k + 1] {
+                mk("bnd", vec![op("bnd", vec![V(x), N(n as u64)])], &pow2(n), out);
+                mk("bnot", vec![op("bnot", vec![V(x), N(n as u64)])], &pow2(n), out);
+            }
+            // re-conversions native -> byte / bit
+            mk("n2y", vec![op("n2y", vec![V(x)])], &BigUint::from(256u32), out);
+            mk("n2b", vec![op("n2b", vec![V(x)])], &BigUint::from(2u8), out);
+            // div_rem of the cell (propagates the bound of the dividend to the recomposed sum)
+            mk(
+                "divrem",
+                vec![op("divrem", vec![V(x), Big(BigUint::from(5u8)), OptBig(Some(&b + 10u8))])],
+                &b,
+                out,
+            );
+        }
+    }
+}
+
+/// Bitwise word instructions and byte-typed assertions / equality tests.
+pub fn bitwise_byte_cases(ctx: &Ctx, out: &mut Vec<Case>) {
+    let mut rng = ctx.rng("bitwise");
+    for d in configs(ctx) {
+        let reps = if !ctx.thorough() { 2 } else { 8 };
+        for i in 0..reps {
+            let n = match i % 4 {
+                0 => 8usize,
+                1 => rng.gen_range(1..=16),
+                2 => rng.gen_range(17..=64),
+                _ => 1,
+            };
+            let x = pick_below(&mut rng, &pow2(n));
+            let y = pick_below(&mut rng, &pow2(n));
+            for name in ["band", "bor", "bxor"] {
+                let o = vec![op("in", vec![]), op("in", vec![]), op(name, vec![V(0), V(1), N(n as u64)])];
+                out.push(case(name, d.clone(), o, vec![big_fe(&x), big_fe(&y)], 2));
+            }
+            let o = vec![op("in", vec![]), op("bnot", vec![V(0), N(n as u64)])];
+            out.push(case("bnot", d.clone(), o, vec![big_fe(&x)], 1));
+            // rem with a declared bound
+            let dv = rand_below(&mut rng, &pow2(n)) + 2u8;
+            let bound = pow2(n + 8);
+            let xv = pick_below(&mut rng, &bound);
+            let o = vec![op("in", vec![]), op("rem", vec![V(0), Big(dv), OptBig(Some(bound))])];
+            out.push(case("rem", d.clone(), o, vec![big_fe(&xv)], 1));
+        }
+        for i in 0..reps {
+            let a = rng.gen_range(0..256u64);
+            let b = if i % 2 == 0 { a } else { rng.gen_range(0..256u64) };
+            let c = if i % 3 == 0 { a } else { rng.gen_range(0..256u64) };
+            for name in ["yiseq", "yisneq"] {
+                let o = vec![op("iny", vec![]), op("iny", vec![]), op(name, vec![V(0), V(1)])];
+                out.push(case(name, d.clone(), o, vec![F::from(a), F::from(b)], 2));
+            }
+            for name in ["yiseqf", "yisneqf"] {
+                let o = vec![op("iny", vec![]), op(name, vec![V(0), N(c)])];
+                out.push(case(name, d.clone(), o, vec![F::from(a)], 1));
+            }
+            let o = vec![op("iny", vec![]), op("iny", vec![]), op(if a == b { "yaeq" } else { "yaneq" }, vec![V(0), V(1)])];
+            out.push(case(if a == b { "yaeq" } else { "yaneq" }, d.clone(), o, vec![F::from(a), F::from(b)], 2));
+            let o = vec![op("iny", vec![]), op(if a == c { "yaeqf" } else { "yaneqf" }, vec![V(0), N(c)])];
+            out.push(case(if a == c { "yaeqf" } else { "yaneqf" }, d.clone(), o, vec![F::from(a)], 1));
+            let o = vec![op("inb", vec![]), op("iny", vec![]), op("iny", vec![]), op("ysel", vec![V(0), V(1), V(2)])];
+            out.push(case("ysel", d.clone(), o, vec![F::from(i as u64 % 2), F::from(a), F::from(b)], 3));
+        }
+    }
+}
+
 pub fn cases(ctx: &Ctx) -> Vec<Case> {
     let mut out = vec![];
+    bound_cache_cases(ctx, &mut out);
+    bitwise_byte_cases(ctx, &mut out);
     native_cases(ctx, &mut out);
     bit_cases(ctx, &mut out);
     decomp_cases(ctx, &mut out);
